@@ -111,7 +111,7 @@ def generate(rng, tier):
         elif m < 7:
             cases.append(sc.gen_ring(rng, sufficient=False))
         elif m < 8:
-            cases.append(undelayed_ring(rng) if i % 20 < 10 else connect_ring(rng))
+            cases.append([undelayed_ring, connect_ring, sc.gen_relay2_ring, sc.gen_pull_ring][(i // 10) % 4](rng))
         else:
             cases.append(sc.gen_dag(rng, cyclic=True, late_start=False))
     return cases
